@@ -43,6 +43,10 @@ type SCTP struct {
 	// WHook, when set, decides the outcome of each SCTPWrite: accept < len(b) together with temp
 	// means "accept bytes were taken, then a temporary error" (the accepted part is recorded).
 	WHook func(b []byte, stream uint16) (accept int, temp bool)
+	// DataErrOnce: the next read that hands out data returns it WITHOUT stream information and
+	// together with this error, once (the shape sctp.SCTPRead has when the ancillary data of a
+	// received chunk cannot be parsed: n > 0, info == nil, err != nil)
+	DataErrOnce error
 }
 
 // TempErr is a temporary net.Error.
@@ -90,6 +94,11 @@ func (s *SCTP) SCTPRead(b []byte) (int, *sctp.SndRcvInfo, error) {
 			h = h*1099511628211 ^ uint64(x)
 		}
 		vs.Fold(h)
+		if s.DataErrOnce != nil {
+			e := s.DataErrOnce
+			s.DataErrOnce = nil
+			return n, nil, e
+		}
 		if s.NoInfo {
 			return n, nil, nil
 		}
